@@ -124,3 +124,14 @@ func (s *Sys) execProof(imm *iavl.ImmutableTree, key []byte) string {
 	}
 	return "pf(" + kind + "," + rBool(verifies) + "," + rBool(neg) + ")"
 }
+
+func gproof(it *iavl.ImmutableTree, root, key []byte) string {
+	p, err := it.GetProof(key)
+	if err != nil {
+		return "err"
+	}
+	if ex := p.GetExist(); ex != nil {
+		return "pk:mem:" + rBool(ics23.VerifyMembership(ics23.IavlSpec, root, p, key, ex.Value))
+	}
+	return "pk:non:" + rBool(ics23.VerifyNonMembership(ics23.IavlSpec, root, p, key))
+}
